@@ -541,7 +541,13 @@ def _atom_expr(a, x):
     elif t == 'norm1':
         f = u.norm(1) if meth else rso.norm(u, 1)
     elif t == 'norm2':
-        f = u.norm(2) if meth else rso.norm(u)
+        form = a.get('spell', 0) // 2 % 3
+        if form == 1:
+            f = rso.fnorm(u)                                   # Frobenius norm of one array
+        elif form == 2 and len(v) > 1:
+            f = rso.fnorm(u[:1], u[1:].reshape((len(v) - 1, 1)))      # ... of several arrays of different shapes
+        else:
+            f = u.norm(2) if meth else rso.norm(u)
     elif t == 'norminf':
         f = u.norm('inf') if meth else rso.norm(u, 'inf')
     elif t == 'pnorm':
